@@ -162,6 +162,20 @@ def do_logs(ops):
             if not logger.isEnabledFor(getattr(logging, op[1].upper())):
                 suppressed.append(op[2])      # the task's own logger does not emit this record at all
             getattr(logger, op[1])(op[2])
+        elif kind == 'logexc':
+            # a record that carries exc_info (logger.exception inside an except block)
+            if not logger.isEnabledFor(logging.ERROR):
+                suppressed.append(op[1])
+            try:
+                raise KeyError('recovered')
+            except KeyError:
+                logger.exception(op[1])
+        elif kind == 'logobj':
+            # %-style arguments that cannot be pickled (a lock, a lambda): the record must still arrive, formatted
+            if not logger.isEnabledFor(logging.WARNING):
+                suppressed.append(op[1])
+            import threading
+            logger.warning('%s with %s and %s', op[1], threading.Lock(), (lambda: 0))
         elif kind == 'setlevel':
             logger.setLevel(getattr(logging, op[1]))
         elif kind == 'print':
